@@ -1,39 +1,28 @@
 (* C08 property theorems (statements; proofs in Proofs.v).  Model: C08/Model.v on top of C07/Model.v,
-   tied to /repo by the correspondence check of checks/c08.py on a full client. *)
+   tied to the source by the correspondence check of checks/c08.py on a full client.
+   Phase 2: the model is the REPAIRED code (fixes F04 F05 F06 F27). *)
 From Slsk Require Import Base.Tac.
 From SlskGen Require Import CharTable.
 From Slsk Require Import C07.Model C07.Proofs C08.Model C08.Proofs.
 
-(* Under the owner-pointer invariant (every held item points at its holder), whatever a query lists as a
-   normal result for a user is permitted for that user by the directory that holds it ... *)
-Theorem C08_visible_entitled : forall s c user qs x, owner_ok s -> user <> [] ->
-  In x (fst (query_split s c user qs)) -> entitled s c user x = true /\ holder_permits s c user x.
-Proof. intros s c user qs x. unfold query_split. apply visible_entitled. Qed.
+(* After EVERY sequence of share operations: whatever a query lists as a normal result for a user is held by a listed
+   directory, and every directory holding it permits the user (the owner-pointer invariant now always holds: F05 repaired) *)
+Theorem C08_visible_entitled : forall ops c user qs x, ops_ok ops -> user <> [] ->
+  In x (fst (query_split (run ops) c user qs)) ->
+  (exists d, In d (listed (run ops)) /\ In x (ditems d)) /\ holder_permits (run ops) c user x.
+Proof. exact visible_entitled_run. Qed.
 
 (* ... and whatever is reported as locked is locked for the user by its holder *)
-Theorem C08_locked_not_entitled : forall s c user qs x, owner_ok s ->
-  In x (snd (query_split s c user qs)) -> entitled s c user x = false /\ holder_locks s c user x.
-Proof. intros s c user qs x. unfold query_split. apply locked_not_entitled. Qed.
+Theorem C08_locked_not_entitled : forall ops c user qs x, ops_ok ops ->
+  In x (snd (query_split (run ops) c user qs)) ->
+  (exists d, In d (listed (run ops)) /\ In x (ditems d)) /\ holder_locks (run ops) c user x.
+Proof. exact locked_not_entitled_run. Qed.
 
-(* The invariant does not hold after a nested directory is added without a rescan (finding F05): a file held by
-   a friends-only directory is a normal result for a stranger *)
-Theorem C08_visible_entitled_refuted : exists ops c user qs x d,
-  In x (fst (query_split (run ops) c user qs)) /\ In d (listed (run ops)) /\ In x (ditems d) /\
-  dir_locked (friends c) d user = true.
-Proof. exact visible_entitled_refuted. Qed.
-
-(* No result (visible or locked) contains an excluded phrase, compared as the code compares it: the phrase as
-   received against the lower-cased path.  For a phrase that is already lower-case this is the property. *)
-Theorem C08_excluded_phrases_partial : forall ops c user qs x ph,
+(* No result (visible or locked) contains an excluded phrase, case-insensitively (F06 repaired) *)
+Theorem C08_excluded_phrases : forall ops c user qs x ph,
   In x (fst (query_split (run ops) c user qs)) \/ In x (snd (query_split (run ops) c user qs)) ->
-  In ph (phrases c) -> substring ph (lower_s (qpath x)) = false.
-Proof. intros ops. apply excluded_phrases_partial. Qed.
-
-(* case-insensitively it is false (finding F06): phrase "SING", result sing.mp3 *)
-Theorem C08_excluded_phrases_refuted : exists ops c user qs x ph,
-  In x (fst (query_split (run ops) c user qs)) /\ In ph (phrases c) /\
-  substring (lower_s ph) (lower_s (qpath x)) = true.
-Proof. exact excluded_phrases_refuted. Qed.
+  In ph (phrases c) -> substring (lower_s ph) (lower_s (qpath x)) = false.
+Proof. intros ops. apply excluded_phrases. Qed.
 
 (* no search reply goes to a user blocked for searches (or without a session) *)
 Theorem C08_search_block : forall s c user qs,
@@ -51,7 +40,7 @@ Theorem C08_no_upload_for_blocked_or_unentitled : forall s c ts user rp, refused
 Proof. intros s c ts user rp H. split; [apply queue_refused | apply request_refused]; exact H. Qed.
 
 (* conversely an upload is created only for a user who is not blocked and an item that a listed directory holds and
-   that is unlocked for the user (through the item's pointer: see F05 for what that means after a move) *)
+   that is unlocked for the user (through the item's pointer, which by C07_owner_pointer is the holder) *)
 Theorem C08_upload_created_only_if_entitled : forall s c ts user rp,
   length (fst (on_transfer_queue s c ts user rp)) > length ts \/ length (fst (on_transfer_request s c ts user rp)) > length ts ->
   mem_str user (blocked_uploads c) = false /\
@@ -90,8 +79,10 @@ Example C08_nonvacuous :
   tst (cycle_one s (mkCfg [] [u1] [] [] 100 true) (mkT u1 w_sing Queued None None)) = Aborted.
 Proof. vm_compute. repeat split; try discriminate. left. reflexivity. Qed.
 
-Example C08_owner_ok_nonvacuous : owner_ok (run ops_f04).
-Proof.
-  intros d x Hd Hx. vm_compute in Hd. destruct Hd as [Hd | []]. subst d. cbn in Hx.
-  destruct Hx as [Hx | [Hx | []]]; subst x; vm_compute; reflexivity.
-Qed.
+(* the histories that used to violate the property (F05: nested friends-only directory added without rescan; F06: upper-case
+   phrase) now behave: the stranger sees the moved file as locked, the phrase SING removes sing.mp3 *)
+Example C08_repaired_witnesses :
+  ops_ok ops_f05 /\ fst (query_split (run ops_f05) cfg0 u1 (c [100;101;101;112])) = [] /\
+  length (snd (query_split (run ops_f05) cfg0 u1 (c [100;101;101;112]))) = 1 /\
+  fst (query_split (run ops_f04) (mkCfg [] [] [] [w_SING] 100 true) u1 (c [115;105;110;103])) = [].
+Proof. vm_compute. repeat split; repeat constructor. Qed.
